@@ -126,7 +126,7 @@ def _tighten(c):
     return c
 
 
-def infeasible(cons, limit=3000):
+def infeasible(cons, limit=20000):
     """cons: list of dict(var->int coeff, ''->const) each meaning sum <= 0 over integers (vars are monomials).
     Returns True when provably infeasible."""
     cur = []
@@ -142,46 +142,92 @@ def infeasible(cons, limit=3000):
         if key not in seen:
             seen.add(key)
             cur.append(c)
-    # equalities (p <= 0 and -p <= 0 both present) with a unit-coefficient variable: substitute it away exactly, so that
-    # the integer tightening below sees the remaining variables' true coefficients (i = 3k, s = len + 4k, ...)
-    for _ in range(40):
-        keys = {tuple(sorted(c.items(), key=lambda kv: str(kv[0]))): c for c in cur}
-        pick = None
-        for c in cur:
-            neg = tuple(sorted(((k, -v) for k, v in c.items()), key=lambda kv: str(kv[0])))
-            if neg in keys:
-                us = [k for k, v in c.items() if k != "" and abs(v) == 1]
-                if us:
-                    pick = (c, keys[neg], min(us, key=str))
-                    break
-        if pick is None:
-            break
-        eq, eqn, x = pick
-        sx = eq[x]  # +-1: x = -sx * (rest of eq)
-        nxt = []
-        seen2 = set()
-        for c in cur:
-            if c is eq or c is eqn:
+    # integer equalities (p <= 0 and -p <= 0 both present) are eliminated exactly before Fourier-Motzkin (Pugh's
+    # Omega-test step): a unit-coefficient variable is substituted away; an equality without one gets a fresh variable
+    # sigma with x_k = -sign(a_k)*m*sigma + sum sign(a_k)*modhat(a_i, m)*x_i (m = |a_k|+1), which strictly shrinks the
+    # coefficients until one is a unit.  This is what carries divisibility ("3*(out-out0) = 4*(n0-n)" makes n0-n a
+    # multiple of 3) into the inequalities, where the gcd tightening can use it.
+    def _key(d):
+        return tuple(sorted(d.items(), key=lambda kv: str(kv[0])))
+
+    def _subst(d, x, expr):
+        cx = d.get(x, 0)
+        if not cx:
+            return d
+        out = {k: v for k, v in d.items() if k != x}
+        for k, v in expr.items():
+            out[k] = out.get(k, 0) + cx * v
+        return {k: v for k, v in out.items() if v != 0}
+
+    keys = {_key(c): c for c in cur}
+    eqs, used = [], set()
+    for c in cur:
+        kc = _key(c)
+        if kc in used:
+            continue
+        kn = _key({k: -v for k, v in c.items()})
+        if kn in keys and kn != kc:
+            used.add(kc)
+            used.add(kn)
+            eqs.append(dict(c))
+    if eqs:
+        ineqs = [c for c in cur if _key(c) not in used]
+        fresh_n = 0
+        guard = 0
+        while eqs and guard < 200:
+            guard += 1
+            e = eqs.pop(0)
+            vs = [k for k in e if k != ""]
+            if not vs:
+                if e.get("", 0) != 0:
+                    return True
                 continue
-            cx = c.get(x, 0)
-            if cx:
-                d = dict(c)
-                del d[x]
-                for k, v in eq.items():
-                    if k != x:
-                        d[k] = d.get(k, 0) - cx * sx * v
-                d = _tighten({k: v for k, v in d.items() if v != 0})
-            else:
-                d = c
+            g = 0
+            for k in vs:
+                g = math.gcd(g, abs(e[k]))
+            if e.get("", 0) % g != 0:
+                return True  # no integer solution
+            if g > 1:
+                e = {k: v // g for k, v in e.items()}
+            units = [k for k in vs if abs(e[k]) == 1]
+            if units:
+                x = min(units, key=str)
+                s = e[x]
+                expr = {k: -s * v for k, v in e.items() if k != x}   # x = -s * rest
+                eqs = [_subst(q, x, expr) for q in eqs]
+                ineqs = [_subst(q, x, expr) for q in ineqs]
+                continue
+            x = min(vs, key=lambda k: (abs(e[k]), str(k)))
+            ax = e[x]
+            sgn = 1 if ax > 0 else -1
+            m = abs(ax) + 1
+
+            def modhat(a_):
+                return a_ - m * ((2 * a_ + m) // (2 * m))
+            fresh_n += 1
+            sig = ("#s%d" % fresh_n,)
+            expr = {sig: -sgn * m}
+            for k, v in e.items():
+                if k != x:
+                    expr[k] = expr.get(k, 0) + sgn * modhat(v)
+            expr = {k: v for k, v in expr.items() if v != 0}
+            eqs = [_subst(e, x, expr)] + [_subst(q, x, expr) for q in eqs]
+            ineqs = [_subst(q, x, expr) for q in ineqs]
+        cur = []
+        seen2 = set()
+        for d in ineqs:
+            d = _tighten({k: v for k, v in d.items() if v != 0})
             if not [k for k in d if k != ""]:
                 if d.get("", 0) > 0:
                     return True
                 continue
-            key = tuple(sorted(d.items(), key=lambda kv: str(kv[0])))
-            if key not in seen2:
-                seen2.add(key)
-                nxt.append(d)
-        cur = nxt
+            kd = _key(d)
+            if kd not in seen2:
+                seen2.add(kd)
+                cur.append(d)
+        for e in eqs:  # (only when the guard tripped) keep what is left as two inequalities
+            cur.append(dict(e))
+            cur.append({k: -v for k, v in e.items()})
     while True:
         vars_ = {}
         for c in cur:
@@ -320,11 +366,72 @@ def relevant(st, goal_atoms, extra=()):
     return cons, atoms
 
 
+def _floordiv(a, b):
+    return a // b
+
+
+def bounds_prove(cons, goal, rounds=6):
+    """interval (bounds-consistency) propagation over the integer constraints `cons` (each sum <= 0), then the goal
+    `goal` (dict, sum <= 0) is proved when its maximum over the box is <= 0.  Cheap and order-independent: it settles most
+    no-wrap and range side conditions before Fourier-Motzkin is tried."""
+    lo, hi = {}, {}
+    lin = [c for c in cons if c]
+    for _ in range(rounds):
+        changed = False
+        for c in lin:
+            k0 = c.get("", 0)
+            items = [(v, x) for v, x in c.items() if v != ""]
+            # minimum of each term
+            mins = []
+            unb = 0
+            for v, x in items:
+                b = lo.get(v) if x > 0 else hi.get(v)
+                if b is None:
+                    unb += 1
+                    mins.append(None)
+                else:
+                    mins.append(x * b)
+            if unb > 1:
+                continue
+            tot = sum(m for m in mins if m is not None)
+            for j, (v, x) in enumerate(items):
+                if unb == 1 and mins[j] is not None:
+                    continue
+                rest = tot - (mins[j] if mins[j] is not None else 0)
+                B = -k0 - rest  # x * v <= B
+                if x > 0:
+                    nb = B // x
+                    if hi.get(v) is None or nb < hi[v]:
+                        hi[v] = nb
+                        changed = True
+                else:
+                    nb = -((B) // (-x))  # v >= ceil(B / x) = -floor(B / -x)
+                    if lo.get(v) is None or nb > lo[v]:
+                        lo[v] = nb
+                        changed = True
+                if lo.get(v) is not None and hi.get(v) is not None and lo[v] > hi[v]:
+                    return True  # the constraints are inconsistent: everything is entailed
+        if not changed:
+            break
+    tot = goal.get("", 0)
+    for v, x in goal.items():
+        if v == "":
+            continue
+        b = hi.get(v) if x > 0 else lo.get(v)
+        if b is None:
+            return False
+        tot += x * b
+    return tot <= 0
+
+
 def entails(st, p, extra=()):
     """does the state entail p <= 0 ?"""
     if p.is_const():
         return p.cval() <= 0
     neg = (-p) + 1  # p >= 1  i.e. -p + 1 <= 0
+    cons0, _a = relevant(st, p.atoms(), extra=list(extra))
+    if bounds_prove(cons0, _as_con(p)):
+        return True
     cons, atoms = relevant(st, p.atoms(), extra=list(extra) + [neg])
     lem = product_lemmas(st, cons)
     return infeasible(cons + lem)
@@ -377,7 +484,7 @@ def feasible(st, extra=()):
     if not atoms:
         return True
     cons, _ = relevant(st, atoms, extra=extra)
-    return not infeasible(cons, limit=1500)
+    return not infeasible(cons, limit=6000)
 
 
 # ----------------------------------------------------------------------------- the interpreter
@@ -837,6 +944,16 @@ class Num:
         a = self.fresh(st, "wrap", t)
         memo[mk] = a
         st.notes.setdefault("wrapped", []).append(repr(v))
+        # the machine value differs from the mathematical one by a whole number of 2^w: W = v - 2^w * K
+        if v.degree() <= 1 and entails(st, -v):
+            M = hi + 1
+            K = self.fresh(st, "carry", None, (0, None))
+            st.add_eq(Poly.atom(a) - v + Poly.atom(K) * M)
+            st.notes["carries"] = list(st.notes.get("carries", [])) + [(K, a)]
+            for j in (1, 3, 7):
+                if entails(st, v - (j + 1) * M + 1):
+                    st.add(Poly.atom(K) - j)
+                    break
         return Poly.atom(a)
 
     def val(self, n, st):
@@ -1193,6 +1310,18 @@ class Num:
                             s.add(Poly.atom(at) - max(left))
                 if dead:
                     continue
+            # an overflow test that has just been decided fixes the carry of the wrapped value it tested
+            cs = s.notes.get("carries")
+            if cs:
+                da = d.atoms()
+                left = []
+                for (K, W) in cs:
+                    if W in da:
+                        if entails(s, Poly.atom(K)):
+                            s.add_eq(Poly.atom(K))
+                            continue
+                    left.append((K, W))
+                s.notes["carries"] = left
             # activate conditional facts of flag atoms whose truth is now known
             s2 = self.activate(s, a, b, op)
             outs.extend(s2)
@@ -2133,7 +2262,19 @@ class Num:
                 while lx is not None and lx["k"] == "cast":
                     lx = fn.d(lx["a"][0])
                 kx = self.key(lx, st) if lx is not None and lx["k"] in ("var", "member") else None
-                if kx in newv and stepkeys.get(kx) and all(sv == 1 for sv in stepkeys[kx]):
+                once = False
+                if kx in newv and stepkeys.get(kx) and len(stepkeys[kx]) == 1 and stepkeys[kx][0] is not None and stepkeys[kx][0] >= 1:
+                    # the single assignment of x must run at most once per iteration: not inside a nested loop
+                    for y in eff:
+                        if y[0] in ("var", "field") and len(y) > 2 and ((("v:" + y[1]) if y[0] == "var" else self.key(y[3], st)) == kx):
+                            blk_ = self.elem_of.get(y[-1]["id"], (None,))[0]
+                            inner_ = set()
+                            for h2, b2 in self.loops().items():
+                                if h2 != header and h2 in self.loops()[header]:
+                                    inner_ |= b2
+                            once = blk_ is not None and blk_ not in inner_
+                if once and (c["op"] != "!=" or stepkeys[kx][0] == 1):
+                    stride_ = stepkeys[kx][0]
                     # N must not be modified in the loop
                     modified = {("v:" + y[1]) for y in eff if y[0] == "var"}
                     nn_ = fn.d(c["a"][1])
@@ -2145,12 +2286,13 @@ class Num:
                             ok = False
                         if y["k"] == "member":
                             ky = self.key(y, st)
-                            if ky in newv or any(z[0] == "call" for z in eff):
+                            if ky in newv or any(z[0] == "call" and self.call_may_write(z[1], ky, st) for z in eff):
                                 ok = False
                     if ok:
                         N = self.val(c["a"][1], st)
                         if N is not None:
-                            bound = N if c["op"] in ("<", "!=") else N + 1
+                            # x < N tested before every step of size s: at the header x <= N + s - 1 (x <= N for s = 1)
+                            bound = (N if c["op"] in ("<", "!=") else N + 1) + (stride_ - 1)
                             if entails(st, pre[kx] - bound):
                                 st.add(newv[kx] - bound)
         for coeffs in cands:
@@ -2263,6 +2405,41 @@ class Num:
         st.notes.setdefault("loops", []).append((header, sorted(pre), len(cands), len(hc)))
         return st
 
+    def call_may_write(self, callnode, key, st):
+        """may this call store to the lvalue key?  (write-effect summary of the callee, matched by record/field type)"""
+        if callnode.get("callee") in self.PURE or self.summary_is_pure(callnode):
+            return False
+        if self.prog is None or key is None:
+            return True
+        E = self.prog.__dict__.get("_effects")
+        if E is None:
+            from .effects import Effects
+            E = self.prog._effects = Effects(self.prog)
+        items = E.callee_items(self.fn, callnode)
+        if items is None:
+            return True
+        m = st.meta.get(key) or (None, None, None)
+        for it in items:
+            if it[0] == "p" or it[0] == "g":
+                rec, fld, ctype = it[3], it[4], it[5]
+                if rec is not None:
+                    if rec == m[0] and (fld == "*" or fld == m[1]):
+                        return True
+                    if fld == "*" and m[0] is not None and self.prog.records.get(rec) and any((self.prog.records[rec]["_unit"].types[f_["t"]].get("rec") == m[0]) for f_ in self.prog.records[rec]["fields"]):
+                        return True
+                elif ctype is None or ctype == m[2]:
+                    if not (it[2] and it[2][-1].endswith("[]")):
+                        return True
+            elif it[0] == "t":
+                if it[1] == m[0] and (it[2] == "*" or it[2] == m[1]):
+                    return True
+            elif it[0] == "ty":
+                if it[1] is None or it[1] == m[2]:
+                    return True
+            else:
+                return True
+        return False
+
     def split_at_loop_entry(self, header, st):
         """`for (x = a; x < N; ++x)`: when the state decides neither a <= N nor a > N, analyse the two cases separately
         (in the second the body never runs), so that the bound x <= N can be kept as an invariant in the first"""
@@ -2325,6 +2502,10 @@ class Num:
                 ok = entails(st, G)
                 if ok:
                     seen_ok.add(gk)
+                elif _os.environ.get("SA_HOUDINI") == "2":
+                    print("  [houdini-fail] %s loop %s cand %s: need %r <= 0 | trail %s" % (self.fn.name, header, cid, G, st.trail[-6:]))
+                    print("     env: %s" % {k: repr(v) for k, v in st.env.items() if k in single.values()})
+                    print("     facts: %s" % [repr(f_) for f_ in st.facts[-14:]])
             if not ok:
                 self.loop_drop_new.setdefault(header, set()).add(cid)
 
